@@ -480,6 +480,11 @@ def classify(case, out, kind, sub=None):
         if (case["cls_name"] == "OsuSvList" and s["op"]["op"] in ("getint", "iter", "append") and 4 in (oc or [])
                 and 4 not in s["before"]["cols"]):
             return "osusv-item-carries-undeclared-metronome"
+        # later steps of the same history: the frame already holds the undeclared column, and items read from it carry it
+        if (case["cls_name"] == "OsuSvList" and s["op"]["op"] in ("getint", "iter") and 4 in (oc or []) and 4 in s["before"]["cols"]
+                and 4 not in out["allowed"]
+                and [c for c in oc if c != 4] == [c for c in s["before"]["cols"] if c in out["allowed"]]):
+            return "osusv-item-carries-undeclared-metronome"
         if s["op"]["op"] in ("last", "firstlast") and s["out"]["t"] == "exc" and not s["before"]["rows"]:
             return "holdlist-last-offset-empty-raises"
     return None
